@@ -1,4 +1,10 @@
 import MG.IO.CtxIO
+import MG.IO.LockIO
+import MG.IO.EngIO
+import MG.IO.SaveLoadIO
+import MG.IO.DtypeIO
+import MG.IO.NnetIO
+import MG.IO.LinearIO
 /-!
 Line-protocol driver: `lake env lean --run MG/Driver.lean < ops.txt`.
 One statement per line in, one observation per line out.  The first token selects the model.
@@ -7,10 +13,18 @@ open MG
 
 structure DState where
   ctx : Ctx.State := Ctx.init
+  lock : Lock.State := Lock.init
+  eng : Eng.DS := {}
 
 def step (d : DState) (line : String) : DState × String :=
   match (line.trimAscii.toString.splitOn " ").filter (· ≠ "") with
   | "ctx" :: rest => let (c, o) := Ctx.handle d.ctx rest; ({ d with ctx := c }, o)
+  | "io" :: rest => (d, SaveLoad.handle rest)
+  | "dtype" :: rest => (d, Dtype.handle rest)
+  | "nnet" :: rest => (d, Nnet.handle rest)
+  | "eng" :: rest => let (e, o) := Eng.handle d.eng rest; ({ d with eng := e }, o)
+  | "lin" :: rest => (d, Lin.handle rest)
+  | "lock" :: rest => let (l, o) := Lock.handle d.lock rest; ({ d with lock := l }, o)
   | _ => (d, "bad-op")
 
 partial def loop (h : IO.FS.Stream) (out : IO.FS.Stream) (d : DState) : IO Unit := do
